@@ -128,8 +128,19 @@ def in_domain(case):
 # -------------------------------------------------------------------------------------------
 # oracle
 
+class _Masked(str):
+    """Every str is a str: a subclass with its own __str__ is written as the characters it holds."""
+
+    def __str__(self):
+        return "<masked>"
+
+    __repr__ = __str__
+
+
 def _write(w, op):
     k = op[0]
+    if k in ("fixed", "padded", "efixed", "epadded", "string", "estring") and len(op[1]) % 3 == 1:
+        op = [k, _Masked(op[1])] + list(op[2:])
     if k == "byte":
         w.add_byte(op[1])
     elif k == "bytes":
@@ -343,6 +354,16 @@ def run_task(task):
                         res.evaluations += 1
                         check_case(c, case, None)
                         res.nontrivial(["long", L, san, [o[0] for o in ops]])
+            # thousands of separate runs of characters without a windows-1252 image, hundreds of break characters
+            for text in ("a\u0416" * 3000, "\u0434\u0430 \u043d\u0435\u0442 " * 1500, "\u65e5" * 5000, "\u00ff" * 300, "a\u00ff" * 400):
+                for san in (False, True):
+                    case = {"sanitize": san, "ops": [["char", 3], ["fixed", text], ["estring", text]]}
+                    res.evaluations += 1
+                    check_case(c, case, None)
+                    res.nontrivial(["runs", len(text), san, text[:3]])
+                    case = {"sanitize": san, "ops": [["efixed", text], ["short", 9], ["string", text]]}
+                    res.evaluations += 1
+                    check_case(c, case, None)
             for L in (300, 64009, 64010, 64012, 70001, 130000):
                 for ops in ([["char", 1], ["padded", "ab", L], ["short", 300]],
                             [["epadded", "xyz", L], ["int", 5], ["padded", "", L], ["char", 9]]):
